@@ -120,6 +120,36 @@ Proof.
   rewrite (d_subscribe_eq d f n Hn). cbn [fst reg]. now apply connect_all_sticky.
 Qed.
 
+Lemma apply_act_sticky : forall d a, shared (reg d) = true -> shared (reg (apply_act d a)) = true.
+Proof.
+  intros d a H; destruct a; cbn [apply_act]; [now rewrite d_unsubscribe_shared | now apply d_subscribe_sticky].
+Qed.
+
+Lemma fold_act_sticky : forall l d, shared (reg d) = true -> shared (reg (fold_left apply_act l d)) = true.
+Proof. induction l as [|a l IH]; cbn; intros d H; [exact H|]. apply IH. now apply apply_act_sticky. Qed.
+
+Lemma call_all_sticky : forall fs ig dc d, shared (reg d) = true ->
+  shared (reg (fst (fst (call_all apply_act ig dc d fs)))) = true.
+Proof.
+  induction fs as [|f fs IH]; intros ig dc d H; cbn [call_all]; [exact H|].
+  pose proof (fold_act_sticky (acts f dc) d H) as H1.
+  pose proof (IH ig dc _ H1) as H2.
+  destruct (call_all apply_act ig dc (fold_left apply_act (acts f dc) d) fs) as [[d2 l] x]. cbn [fst] in H2.
+  destruct (raises_on f dc); [destruct ig|]; cbn [fst]; assumption.
+Qed.
+
+Lemma process_sticky : forall d dc, shared (reg d) = true -> shared (reg (fst (fst (process d dc)))) = true.
+Proof. intros; unfold process; now apply call_all_sticky. Qed.
+
+Lemma emit_all_sticky : forall ds d, shared (reg d) = true ->
+  shared (reg (fst (fst (emit_all process d ds)))) = true.
+Proof.
+  induction ds as [|dc ds IH]; intros d H; cbn [emit_all]; [exact H|].
+  pose proof (process_sticky d dc H) as H1. destruct (process d dc) as [[d1 inv] x]. cbn [fst] in H1.
+  destruct x as [e|]; [exact H1|].
+  pose proof (IH d1 H1) as H2. destruct (emit_all process d1 ds) as [[d2 ems] y]. exact H2.
+Qed.
+
 Lemma subscribe_temps_sticky : forall l s, sh s = true -> sh (subscribe_temps s l) = true.
 Proof.
   induction l as [|[n f] l IH]; cbn; intros s H; [assumption|].
@@ -130,16 +160,21 @@ Qed.
 Lemma run_plan_sticky : forall plan s c ems toks,
   sh s = true -> sh (fst (fst (fst (fst (run_plan s c plan ems toks))))) = true.
 Proof.
-  induction plan as [|m plan IH]; cbn; intros s c ems toks H; [assumption|].
-  destruct m.
-  - (* POpen *) destruct (plan_action c POpen); [|assumption|now apply IH].
-    destruct (emit_all _ _) as [es [e|]]; [assumption | now apply IH].
-  - destruct (plan_action c PEvent); [|assumption|now apply IH].
-    destruct (emit_all _ _) as [es [e|]]; [assumption | now apply IH].
-  - destruct (plan_action c PClose); [|assumption|now apply IH].
-    destruct (emit_all _ _) as [es [e|]]; [assumption | now apply IH].
-  - destruct (plan_action c PNull); [|assumption|now apply IH].
-    destruct (emit_all _ _) as [es [e|]]; [assumption | now apply IH].
+  induction plan as [|m plan IH]; cbn [run_plan]; intros s c ems toks H; [assumption|].
+  assert (Hdata : forall a, sh (fst (fst (fst (fst
+      match a with
+      | ASkip => run_plan s c plan ems toks
+      | AIllegal => (s, c, ems, toks, Some ExIllegal)
+      | AEmit during ds after =>
+          match emit_all process (dsp s) ds with
+          | (d, es, None) => run_plan {| dsp := d; temp := temp s |} after plan (ems ++ es) toks
+          | (d, es, Some e) => ({| dsp := d; temp := temp s |}, during, ems ++ es, toks, Some e)
+          end
+      end)))) = true).
+  { intros [during ds after| |]; [|exact H|now apply IH].
+    pose proof (emit_all_sticky ds (dsp s) H) as H1.
+    destruct (emit_all process (dsp s) ds) as [[d es] [e|]]; cbn [fst] in H1; [exact H1 | now apply IH]. }
+  destruct m; try apply Hdata.
   - pose proof (d_subscribe_sticky (dsp s) f n H) as H1.
     destruct (d_subscribe (dsp s) f n) as [d [t|]]; cbn in H1; [apply IH; exact H1 | exact H1].
   - assert (H1 : shared (reg (d_unsubscribe (dsp s) t)) = true) by (now rewrite d_unsubscribe_shared).
@@ -157,7 +192,8 @@ Proof.
   pose proof (run_plan_sticky plan (subscribe_temps (clear_call_cache s) l) cstate0 [] []
                 (subscribe_temps_sticky l _ H0)) as H1.
   destruct (run_plan _ _ _ _ _) as [[[[s3 c] ems] toks] x]; cbn in H1.
-  destruct (emit_all _ _) as [es y]; exact H1.
+  pose proof (emit_all_sticky (cleanup_docs c match x with Some _ => true | None => false end) (dsp s3) H1) as H2.
+  destruct (emit_all process (dsp s3) _) as [[d4 es] y]; exact H2.
 Qed.
 
 Lemma d_unsubscribe_all_shared : forall d, shared (reg (d_unsubscribe_all d)) = shared (reg d).
@@ -472,11 +508,6 @@ Proof.
   destruct (covers (s_name (g_sub g)) s); reflexivity.
 Qed.
 
-Lemma emit_all_ext : forall p1 p2 ds, (forall d, p1 d = p2 d) -> emit_all p1 ds = emit_all p2 ds.
-Proof.
-  intros p1 p2 ds H; induction ds as [|d ds IH]; cbn; [reflexivity|]. now rewrite H, IH.
-Qed.
-
 (* ------------------------------------------------------------------ the refinement relation *)
 
 (* inside a call: every registered token is a live subscription of the specification *)
@@ -486,7 +517,8 @@ Record RelIn (s : re) (L : list gsub) (sp : spec_st) : Prop := {
   ri_tok : next_tok sp = tok_ctr (dsp s);
   ri_ign : sp_ign sp = ign (reg (dsp s));
   ri_temp : forall g, In g L -> s_temp (g_sub g) = memb (g_tok g) (temp s);
-  ri_temp_in : forall t, In t (temp s) -> exists g, In g L /\ g_tok g = t
+  ri_temps : sp_temps sp = temp s;
+  ri_temp_bound : forall t, In t (temp s) -> t < tok_ctr (dsp s)
 }.
 
 (* between calls: the temporary tokens of the last call are still registered (they are only removed by
@@ -497,14 +529,9 @@ Record RelBt (s : re) (L : list gsub) (sp : spec_st) : Prop := {
   rb_tok : next_tok sp = tok_ctr (dsp s);
   rb_ign : sp_ign sp = ign (reg (dsp s));
   rb_temp : forall g, In g L -> s_temp (g_sub g) = memb (g_tok g) (temp s);
+  rb_temps : sp_temps sp = [];
   rb_temp_bound : forall t, In t (temp s) -> t < tok_ctr (dsp s)
 }.
-
-Lemma process_eq : forall s L sp d, RelIn s L sp -> process (reg (dsp s)) d = sp_process sp d.
-Proof.
-  intros s L sp d H. unfold process, sp_process.
-  rewrite (registered_live _ _ _ (ri_inv _ _ _ H)), (ri_live _ _ _ H), (ri_ign _ _ _ H). reflexivity.
-Qed.
 
 Lemma memb_app : forall t l1 l2, memb t (l1 ++ l2) = memb t l1 || memb t l2.
 Proof. intros; unfold memb; apply existsb_app. Qed.
@@ -517,76 +544,154 @@ Proof.
   - now rewrite IH.
 Qed.
 
-(* a (valid) temporary subscription made inside a call *)
-Lemma sub_in_call : forall s L sp f n,
-  RelIn s L sp -> n <> NBad -> shared (reg (fst (d_subscribe (dsp s) f n))) = false ->
-  exists d', d_subscribe (dsp s) f n = (d', Some (tok_ctr (dsp s))) /\
-             sp_subscribe sp f n true = (fst (sp_subscribe sp f n true), Some (tok_ctr (dsp s))) /\
-             RelIn {| dsp := d'; temp := temp s ++ [tok_ctr (dsp s)] |}
-                   (L ++ [new_gsub (dsp s) f n true]) (fst (sp_subscribe sp f n true)).
-Proof.
-  intros s L sp f n H Hn Hs. destruct H as [R1 R2 R3 R4 R5 R6].
-  destruct (d_subscribe_inv (dsp s) L f n true R1 Hn Hs) as [HI [Ht Hig]].
-  destruct (d_subscribe (dsp s) f n) as [d' o] eqn:E. cbn [fst snd] in *. subst o.
-  exists d'. split; [reflexivity|].
-  assert (Esp : sp_subscribe sp f n true =
-                ({| live := live sp ++ [{| s_tok := next_tok sp; s_fn := f; s_name := n; s_temp := true |}];
-                    next_tok := S (next_tok sp); sp_ign := sp_ign sp |}, Some (next_tok sp)))
-    by (destruct n; try congruence; reflexivity).
-  rewrite Esp; cbn [fst]. rewrite R3. split; [reflexivity|].
-  assert (Etok : tok_ctr d' = S (tok_ctr (dsp s))).
-  { rewrite (d_subscribe_eq _ f n Hn) in E. inversion E; reflexivity. }
-  constructor; cbn [dsp temp live next_tok sp_ign].
-  - exact HI.
-  - rewrite R2, map_app. reflexivity.
-  - now rewrite Etok.
-  - now rewrite Hig.
-  - intros g Hg. rewrite memb_app. apply in_app_or in Hg as [Hg|[<-|[]]].
-    + rewrite (R5 g Hg). pose proof (inv_tok_bound _ _ R1 g Hg) as Hb.
-      unfold memb at 2; cbn. replace (g_tok g =? tok_ctr (dsp s)) with false by (symmetry; apply Nat.eqb_neq; lia).
-      now rewrite !orb_false_r.
-    + unfold g_tok, new_gsub, memb. cbn. rewrite Nat.eqb_refl. cbn. now rewrite orb_true_r.
-  - intros t Ht. apply in_app_or in Ht as [Ht|[<-|[]]].
-    + destruct (R6 t Ht) as [g [Hg Hgt]]. exists g; split; [apply in_or_app; now left | exact Hgt].
-    + exists (new_gsub (dsp s) f n true); split; [apply in_or_app; right; now left | reflexivity].
-Qed.
+Lemma sp_subscribe_eq : forall sp f n tmp, n <> NBad ->
+  sp_subscribe sp f n tmp =
+  ({| live := live sp ++ [{| s_tok := next_tok sp; s_fn := f; s_name := n; s_temp := tmp |}];
+      next_tok := S (next_tok sp); sp_ign := sp_ign sp;
+      sp_temps := if tmp then sp_temps sp ++ [next_tok sp] else sp_temps sp |}, Some (next_tok sp)).
+Proof. intros sp f n tmp H; destruct n; try congruence; reflexivity. Qed.
 
 Lemma sp_subscribe_bad : forall sp f tmp, sp_subscribe sp f NBad tmp = (sp, None).
 Proof. reflexivity. Qed.
 
-(* unsubscribing a token inside a call *)
+(* a (valid) subscription made inside a call: temporary (per-call / in-plan) or permanent (from a callback) *)
+Lemma sub_in_call : forall s L sp f n tmp,
+  RelIn s L sp -> n <> NBad -> shared (reg (fst (d_subscribe (dsp s) f n))) = false ->
+  exists d', d_subscribe (dsp s) f n = (d', Some (tok_ctr (dsp s))) /\
+             sp_subscribe sp f n tmp = (fst (sp_subscribe sp f n tmp), Some (tok_ctr (dsp s))) /\
+             RelIn {| dsp := d'; temp := if tmp then temp s ++ [tok_ctr (dsp s)] else temp s |}
+                   (L ++ [new_gsub (dsp s) f n tmp]) (fst (sp_subscribe sp f n tmp)).
+Proof.
+  intros s L sp f n tmp H Hn Hs. destruct H as [R1 R2 R3 R4 R5 R6 R7].
+  destruct (d_subscribe_inv (dsp s) L f n tmp R1 Hn Hs) as [HI [Ht Hig]].
+  destruct (d_subscribe (dsp s) f n) as [d' o] eqn:E. cbn [fst snd] in *. subst o.
+  exists d'. split; [reflexivity|].
+  rewrite (sp_subscribe_eq sp f n tmp Hn); cbn [fst]. rewrite R3. split; [reflexivity|].
+  assert (Etok : tok_ctr d' = S (tok_ctr (dsp s))).
+  { rewrite (d_subscribe_eq _ f n Hn) in E. inversion E; reflexivity. }
+  assert (Hnew : memb (tok_ctr (dsp s)) (temp s) = false).
+  { destruct (memb (tok_ctr (dsp s)) (temp s)) eqn:Em; [|reflexivity]. apply memb_In, R7 in Em. lia. }
+  constructor; cbn [dsp temp live next_tok sp_ign sp_temps].
+  - exact HI.
+  - rewrite R2, map_app. reflexivity.
+  - now rewrite Etok.
+  - now rewrite Hig.
+  - intros g Hg. apply in_app_or in Hg as [Hg|[<-|[]]].
+    + rewrite (R5 g Hg). pose proof (inv_tok_bound _ _ R1 g Hg) as Hb. destruct tmp; [|reflexivity].
+      rewrite memb_app. unfold memb at 3; cbn.
+      replace (g_tok g =? tok_ctr (dsp s)) with false by (symmetry; apply Nat.eqb_neq; lia).
+      now rewrite !orb_false_r.
+    + unfold g_tok, new_gsub; cbn. destruct tmp; [|now rewrite Hnew].
+      rewrite memb_app. unfold memb at 2; cbn. rewrite Nat.eqb_refl. cbn. now rewrite orb_true_r.
+  - rewrite R6. reflexivity.
+  - intros t Ht. rewrite Etok. destruct tmp; [|apply R7 in Ht; lia].
+    apply in_app_or in Ht as [Ht|[<-|[]]]; [apply R7 in Ht; lia | lia].
+Qed.
+
+(* unsubscribing a token inside a call (by a message - then the temp set may shrink - or by a callback) *)
 Lemma unsub_in_call : forall s L sp t,
   RelIn s L sp ->
-  existsb (Nat.eqb t) (temp s) = existsb (fun x => (s_tok x =? t) && s_temp x) (live sp) /\
+  RelIn {| dsp := d_unsubscribe (dsp s) t; temp := temp s |} (filter (keep_tok t) L) (sp_unsubscribe sp t) /\
   RelIn {| dsp := d_unsubscribe (dsp s) t; temp := filter (fun x => negb (x =? t)) (temp s) |}
-        (filter (keep_tok t) L) (sp_unsubscribe sp t) /\
-  (existsb (Nat.eqb t) (temp s) = false ->
-   RelIn {| dsp := d_unsubscribe (dsp s) t; temp := temp s |} (filter (keep_tok t) L) (sp_unsubscribe sp t)).
+        (filter (keep_tok t) L)
+        {| live := live (sp_unsubscribe sp t); next_tok := next_tok (sp_unsubscribe sp t);
+           sp_ign := sp_ign (sp_unsubscribe sp t); sp_temps := filter (fun x => negb (x =? t)) (sp_temps sp) |}.
 Proof.
-  intros s L sp t H. destruct H as [R1 R2 R3 R4 R5 R6].
+  intros s L sp t H. destruct H as [R1 R2 R3 R4 R5 R6 R7].
   destruct (d_unsubscribe_inv (dsp s) L t R1) as [HI [Hig Htc]].
   assert (Hlive : live (sp_unsubscribe sp t) = map g_sub (filter (keep_tok t) L)).
   { cbn. rewrite R2, filter_map_comm. reflexivity. }
-  split; [|split].
-  - apply eq_true_iff_eq. split; intros Hx.
-    + fold (memb t (temp s)) in Hx. apply memb_In in Hx. destruct (R6 t Hx) as [g [Hg Hgt]].
-      apply existsb_exists. exists (g_sub g). split; [rewrite R2; now apply in_map|].
-      fold (g_tok g). rewrite Hgt, Nat.eqb_refl. cbn. rewrite (R5 g Hg), Hgt. now apply memb_In.
-    + apply existsb_exists in Hx as [x [Hx Hc]]. rewrite R2 in Hx. apply in_map_iff in Hx as [g [<- Hg]].
-      apply andb_true_iff in Hc as [Hc1 Hc2]. apply Nat.eqb_eq in Hc1. rewrite (R5 g Hg) in Hc2.
-      fold (g_tok g) in Hc1. rewrite Hc1 in Hc2. exact Hc2.
-  - constructor; cbn [dsp temp]; [exact HI | exact Hlive | cbn; congruence | cbn; congruence | | ].
+  split.
+  - constructor; cbn [dsp temp]; [exact HI | exact Hlive | cbn; congruence | cbn; congruence | | exact R6 | ].
+    + intros g Hg. apply filter_In in Hg as [Hg _]. now apply R5.
+    + intros t' Ht'. rewrite Htc. now apply R7.
+  - constructor; cbn [dsp temp live next_tok sp_ign sp_temps];
+      [exact HI | exact Hlive | cbn; congruence | cbn; congruence | | now rewrite R6 | ].
     + intros g Hg. apply filter_In in Hg as [Hg Hk]. unfold keep_tok in Hk.
       apply negb_true_iff, Nat.eqb_neq in Hk. rewrite memb_filter_neq by exact Hk. now apply R5.
-    + intros t' Ht'. apply filter_In in Ht' as [Ht' Hn]. apply negb_true_iff, Nat.eqb_neq in Hn.
-      destruct (R6 t' Ht') as [g [Hg Hgt]]. exists g; split; [|exact Hgt].
-      apply filter_In; split; [exact Hg|]. unfold keep_tok. apply negb_true_iff, Nat.eqb_neq. congruence.
-  - intros Hno. constructor; cbn [dsp temp]; [exact HI | exact Hlive | cbn; congruence | cbn; congruence | | ].
-    + intros g Hg. apply filter_In in Hg as [Hg _]. now apply R5.
-    + intros t' Ht'. destruct (R6 t' Ht') as [g [Hg Hgt]]. exists g; split; [|exact Hgt].
-      apply filter_In; split; [exact Hg|]. unfold keep_tok. apply negb_true_iff, Nat.eqb_neq.
-      intros E. rewrite Hgt in E. rewrite E in Ht'.
-      apply memb_In in Ht'. unfold memb in Ht'. congruence.
+    + intros t' Ht'. apply filter_In in Ht' as [Ht' _]. rewrite Htc. now apply R7.
+Qed.
+
+(* ------------------------------------------------------------------ simulation: one document *)
+
+Lemma act_sim : forall s L sp a,
+  RelIn s L sp -> shared (reg (apply_act (dsp s) a)) = false ->
+  exists L', RelIn {| dsp := apply_act (dsp s) a; temp := temp s |} L' (sp_apply_act sp a).
+Proof.
+  intros s L sp a HR Hs. destruct a as [t|id eq rz n]; cbn [apply_act sp_apply_act] in *.
+  - exists (filter (keep_tok t) L). apply (unsub_in_call s L sp t HR).
+  - assert (Hn : act_name n <> NBad) by (destruct n; discriminate).
+    destruct (sub_in_call s L sp (plain_fn id eq rz) (act_name n) false HR Hn Hs) as [d' [E1 [_ HR']]].
+    rewrite E1. cbn [fst]. eexists; exact HR'.
+Qed.
+
+Lemma fold_act_sim : forall l s L sp,
+  RelIn s L sp -> shared (reg (fold_left apply_act l (dsp s))) = false ->
+  exists L', RelIn {| dsp := fold_left apply_act l (dsp s); temp := temp s |} L' (fold_left sp_apply_act l sp).
+Proof.
+  induction l as [|a l IH]; intros s L sp HR Hs; cbn [fold_left] in *.
+  - exists L. destruct s; exact HR.
+  - assert (H1 : shared (reg (apply_act (dsp s) a)) = false).
+    { destruct (shared (reg (apply_act (dsp s) a))) eqn:E; [|reflexivity].
+      rewrite (fold_act_sticky l _ E) in Hs. discriminate. }
+    destruct (act_sim s L sp a HR H1) as [L1 HR1].
+    apply (IH {| dsp := apply_act (dsp s) a; temp := temp s |} L1 _ HR1 Hs).
+Qed.
+
+Lemma call_all_sim : forall fs s L sp ig dc d' calls x,
+  RelIn s L sp -> call_all apply_act ig dc (dsp s) fs = (d', calls, x) -> shared (reg d') = false ->
+  exists sp' L', call_all sp_apply_act ig dc sp fs = (sp', calls, x) /\
+                 RelIn {| dsp := d'; temp := temp s |} L' sp'.
+Proof.
+  induction fs as [|f fs IH]; intros s L sp ig dc d' calls x HR Hc Hs; cbn [call_all] in *.
+  - inversion Hc; subst. exists sp, L; split; [reflexivity|]. destruct s; exact HR.
+  - set (d1 := fold_left apply_act (acts f dc) (dsp s)) in *.
+    assert (H1 : shared (reg d1) = false).
+    { destruct (shared (reg d1)) eqn:E; [|reflexivity]. exfalso.
+      pose proof (call_all_sticky fs ig dc d1 E) as K.
+      destruct (call_all apply_act ig dc d1 fs) as [[d2 l] y]. cbn [fst] in K.
+      destruct (raises_on f dc); [destruct ig|]; inversion Hc; subst; congruence. }
+    destruct (fold_act_sim (acts f dc) s L sp HR H1) as [L1 HR1]. fold d1 in HR1.
+    set (sp1 := fold_left sp_apply_act (acts f dc) sp) in *.
+    assert (Hrec : forall d2 l y, call_all apply_act ig dc d1 fs = (d2, l, y) -> shared (reg d2) = false ->
+              exists sp' L', call_all sp_apply_act ig dc sp1 fs = (sp', l, y) /\ RelIn {| dsp := d2; temp := temp s |} L' sp').
+    { intros d2 l y E Hs2. apply (IH {| dsp := d1; temp := temp s |} L1 sp1 ig dc d2 l y HR1 E Hs2). }
+    destruct (raises_on f dc); [destruct ig|].
+    + destruct (call_all apply_act true dc d1 fs) as [[d2 l] y] eqn:E. inversion Hc; subst.
+      destruct (Hrec _ _ _ eq_refl Hs) as [sp' [L' [E' HR']]]. rewrite E'. exists sp', L'; auto.
+    + inversion Hc; subst. exists sp1, L1; auto.
+    + destruct (call_all apply_act ig dc d1 fs) as [[d2 l] y] eqn:E. inversion Hc; subst.
+      destruct (Hrec _ _ _ eq_refl Hs) as [sp' [L' [E' HR']]]. rewrite E'. exists sp', L'; auto.
+Qed.
+
+Lemma process_sim : forall s L sp dc d' calls x,
+  RelIn s L sp -> process (dsp s) dc = (d', calls, x) -> shared (reg d') = false ->
+  exists sp' L', sp_process sp dc = (sp', calls, x) /\ RelIn {| dsp := d'; temp := temp s |} L' sp'.
+Proof.
+  intros s L sp dc d' calls x HR Hp Hs. unfold process, sp_process in *.
+  rewrite (registered_live _ _ _ (ri_inv _ _ _ HR)) in Hp.
+  rewrite (ri_live _ _ _ HR), (ri_ign _ _ _ HR).
+  eapply call_all_sim; eauto.
+Qed.
+
+Lemma emit_all_sim : forall ds s L sp d' es x,
+  RelIn s L sp -> emit_all process (dsp s) ds = (d', es, x) -> shared (reg d') = false ->
+  exists sp' L', emit_all sp_process sp ds = (sp', es, x) /\ RelIn {| dsp := d'; temp := temp s |} L' sp'.
+Proof.
+  induction ds as [|dc ds IH]; intros s L sp d' es x HR He Hs; cbn [emit_all] in *.
+  - inversion He; subst. exists sp, L; split; [reflexivity|]. destruct s; exact HR.
+  - destruct (process (dsp s) dc) as [[d1 inv] y] eqn:Ep.
+    assert (H1 : shared (reg d1) = false).
+    { destruct (shared (reg d1)) eqn:E; [|reflexivity]. exfalso.
+      destruct y as [e|]; [inversion He; subst; congruence|].
+      pose proof (emit_all_sticky ds d1 E) as K. destruct (emit_all process d1 ds) as [[d2 ems] z].
+      cbn [fst] in K. inversion He; subst. congruence. }
+    destruct (process_sim s L sp dc d1 inv y HR Ep H1) as [sp1 [L1 [Ep' HR1]]]. rewrite Ep'.
+    destruct y as [e|].
+    + inversion He; subst. exists sp1, L1; auto.
+    + destruct (emit_all process d1 ds) as [[d2 ems] z] eqn:E2. inversion He; subst.
+      destruct (IH {| dsp := d1; temp := temp s |} L1 sp1 d' ems x HR1 E2 Hs) as [sp' [L' [E' HR']]].
+      rewrite E'. exists sp', L'; auto.
 Qed.
 
 (* ------------------------------------------------------------------ simulation: inside a call *)
@@ -598,34 +703,40 @@ Lemma run_plan_sim : forall plan s L sp c ems toks s' c' ems' toks' x,
 Proof.
   induction plan as [|m plan IH]; intros s L sp c ems toks s' c' ems' toks' x HR Hrun Hsh.
   - cbn in *. inversion Hrun; subst. exists sp, L; split; [reflexivity | exact HR].
-  - assert (Hdata : forall (Hm : match m with PSub _ _ | PUnsub _ => False | _ => True end),
-        match plan_action c m with
+  - assert (Hdata : forall a,
+        match a with
         | ASkip => run_plan s c plan ems toks
         | AIllegal => (s, c, ems, toks, Some ExIllegal)
         | AEmit during ds after =>
-            match emit_all (process (reg (dsp s))) ds with
-            | (es, None) => run_plan s after plan (ems ++ es) toks
-            | (es, Some e) => (s, during, ems ++ es, toks, Some e)
+            match emit_all process (dsp s) ds with
+            | (d, es, None) => run_plan {| dsp := d; temp := temp s |} after plan (ems ++ es) toks
+            | (d, es, Some e) => ({| dsp := d; temp := temp s |}, during, ems ++ es, toks, Some e)
             end
         end = (s', c', ems', toks', x) ->
         exists sp' L',
-          match plan_action c m with
+          match a with
           | ASkip => sp_run_plan sp c plan ems toks
           | AIllegal => (sp, c, ems, toks, Some ExIllegal)
           | AEmit during ds after =>
-              match emit_all (sp_process sp) ds with
-              | (es, None) => sp_run_plan sp after plan (ems ++ es) toks
-              | (es, Some e) => (sp, during, ems ++ es, toks, Some e)
+              match emit_all sp_process sp ds with
+              | (s1, es, None) => sp_run_plan s1 after plan (ems ++ es) toks
+              | (s1, es, Some e) => (s1, during, ems ++ es, toks, Some e)
               end
           end = (sp', c', ems', toks', x) /\ RelIn s' L' sp').
-    { intros _ Hr. destruct (plan_action c m) as [during ds after| |].
-      - rewrite <- (emit_all_ext _ _ ds (fun d => process_eq s L sp d HR)).
-        destruct (emit_all (process (reg (dsp s))) ds) as [es [e|]].
-        + inversion Hr; subst. exists sp, L; split; [reflexivity | exact HR].
+    { intros a Hr. destruct a as [during ds after| |].
+      - destruct (emit_all process (dsp s) ds) as [[d es] y] eqn:Ee.
+        assert (H1 : shared (reg d) = false).
+        { destruct (shared (reg d)) eqn:E; [|reflexivity]. exfalso. destruct y as [e|].
+          - inversion Hr; subst. unfold sh in Hsh; cbn in Hsh. congruence.
+          - pose proof (run_plan_sticky plan {| dsp := d; temp := temp s |} after (ems ++ es) toks E) as K.
+            rewrite Hr in K. cbn in K. congruence. }
+        destruct (emit_all_sim ds s L sp d es y HR Ee H1) as [sp1 [L1 [Ee' HR1]]]. rewrite Ee'.
+        destruct y as [e|].
+        + inversion Hr; subst. exists sp1, L1; auto.
         + eapply IH; eauto.
       - inversion Hr; subst. exists sp, L; split; [reflexivity | exact HR].
       - eapply IH; eauto. }
-    destruct m; cbn [run_plan sp_run_plan] in *; try (apply Hdata; [exact I | exact Hrun]).
+    destruct m; cbn [run_plan sp_run_plan] in *; try (apply Hdata; exact Hrun).
     + (* PSub *)
       destruct (subname_dec_bad n) as [->|Hn].
       * rewrite d_subscribe_bad in Hrun. rewrite sp_subscribe_bad. inversion Hrun; subst.
@@ -638,14 +749,14 @@ Proof.
                           tokmap := tokmap (dsp s) ++ [(tok_ctr (dsp s), snd (connect_all (reg (dsp s)) (sigs_of n) f))] |};
                 temp := temp s ++ [tok_ctr (dsp s)] |} c ems (toks ++ [tok_ctr (dsp s)]) E) as K.
           rewrite Hrun in K. cbn in K. congruence. }
-        destruct (sub_in_call s L sp f n HR Hn Hs1) as [d' [E1 [E2 HR']]].
+        destruct (sub_in_call s L sp f n true HR Hn Hs1) as [d' [E1 [E2 HR']]].
         rewrite E1 in Hrun. rewrite E2. eapply IH; eauto.
     + (* PUnsub *)
-      destruct (unsub_in_call s L sp t HR) as [Ec [HR1 HR2]].
-      rewrite <- Ec. destruct (existsb (Nat.eqb t) (temp s)) eqn:Et.
-      * eapply IH; eauto.
-      * inversion Hrun; subst. exists (sp_unsubscribe sp t), (filter (keep_tok t) L). split; [reflexivity|].
-        now apply HR2.
+      destruct (unsub_in_call s L sp t HR) as [HR1 HR2].
+      pose proof (ri_temps _ _ _ HR) as Et0. rewrite Et0 in HR2 |- *.
+      destruct (existsb (Nat.eqb t) (temp s)) eqn:Et.
+      * eapply IH; [exact HR2 | exact Hrun | exact Hsh].
+      * inversion Hrun; subst. exists (sp_unsubscribe sp t), (filter (keep_tok t) L). split; [reflexivity | exact HR1].
 Qed.
 
 Lemma subscribe_temps_sim : forall l s L sp,
@@ -661,7 +772,7 @@ Proof.
         rewrite (d_subscribe_eq _ f n Hn) in Hsh, E. cbn [fst] in E.
         match type of Hsh with sh (subscribe_temps ?s0 l) = _ =>
           rewrite (subscribe_temps_sticky l s0 E) in Hsh end. discriminate. }
-      destruct (sub_in_call s L sp f n HR Hn Hs1) as [d' [E1 [E2 HR']]].
+      destruct (sub_in_call s L sp f n true HR Hn Hs1) as [d' [E1 [E2 HR']]].
       rewrite E1 in *. eapply IH; eauto.
 Qed.
 
@@ -670,7 +781,7 @@ Qed.
 Lemma clear_call_cache_rel : forall s L sp,
   RelBt s L sp -> exists L', RelIn (clear_call_cache s) L' sp.
 Proof.
-  intros s L sp [B1 B2 B3 B4 B5 B6].
+  intros s L sp [B1 B2 B3 B4 B5 B6 B7].
   destruct (fold_unsubscribe_inv (temp s) (dsp s) L B1) as [HI [Hig Htc]].
   exists (filter (fun g => negb (memb (g_tok g) (temp s))) L).
   constructor; unfold clear_call_cache; cbn [dsp temp].
@@ -679,14 +790,13 @@ Proof.
   - congruence.
   - congruence.
   - intros g Hg. apply filter_In in Hg as [Hg Hk]. rewrite (B5 g Hg). apply negb_true_iff in Hk. now rewrite Hk.
+  - exact B6.
   - intros t [].
 Qed.
 
 Lemma end_call_rel : forall s L sp, RelIn s L sp -> RelBt s L (sp_end_call sp).
 Proof.
-  intros s L sp [R1 R2 R3 R4 R5 R6]. constructor; cbn; auto.
-  - now rewrite R2.
-  - intros t Ht. destruct (R6 t Ht) as [g [Hg <-]]. now apply (inv_tok_bound _ _ R1).
+  intros s L sp [R1 R2 R3 R4 R5 R6 R7]. constructor; cbn; auto. now rewrite R2.
 Qed.
 
 Lemma run_call_sim : forall s L sp subs plan,
@@ -698,24 +808,25 @@ Proof.
   destruct (clear_call_cache_rel s L sp HB) as [L0 HR0].
   destruct (normalize_subs subs) as [l|].
   - destruct (run_plan (subscribe_temps (clear_call_cache s) l) cstate0 plan [] []) as [[[[s3 c] ems] toks] x] eqn:Erun.
-    assert (Hs3 : sh s3 = false) by (destruct (emit_all (process (reg (dsp s3))) _) as [es y]; exact Hsh).
+    destruct (emit_all process (dsp s3) (cleanup_docs c match x with Some _ => true | None => false end))
+      as [[d4 es] y] eqn:Ee.
+    cbn [fst snd] in Hsh. unfold sh in Hsh; cbn [dsp] in Hsh.
+    assert (Hs3 : sh s3 = false).
+    { destruct (sh s3) eqn:E; [|reflexivity].
+      pose proof (emit_all_sticky (cleanup_docs c match x with Some _ => true | None => false end) (dsp s3) E) as K.
+      rewrite Ee in K. cbn in K. congruence. }
     assert (Hs2 : sh (subscribe_temps (clear_call_cache s) l) = false).
     { destruct (sh (subscribe_temps (clear_call_cache s) l)) eqn:E; [|reflexivity].
       pose proof (run_plan_sticky plan _ cstate0 [] [] E) as K. rewrite Erun in K. cbn in K. congruence. }
     destruct (subscribe_temps_sim l _ L0 sp HR0 Hs2) as [L2 HR2].
     destruct (run_plan_sim plan _ L2 _ cstate0 [] [] s3 c ems toks x HR2 Erun Hs3) as [sp3 [L3 [Esp HR3]]].
     rewrite Esp.
-    rewrite (emit_all_ext _ _ (cleanup_docs c match x with Some _ => true | None => false end)
-               (fun d => process_eq s3 L3 sp3 d HR3)).
-    destruct (emit_all (sp_process sp3) _) as [es y]. cbn [fst snd].
-    split; [reflexivity|]. exists L3. now apply end_call_rel.
+    destruct (emit_all_sim _ s3 L3 sp3 d4 es y HR3 Ee Hsh) as [sp4 [L4 [Ee' HR4]]]. rewrite Ee'.
+    cbn [fst snd]. split; [reflexivity|]. exists L4. now apply end_call_rel.
   - cbn [fst snd]. split; [reflexivity|].
-    (* nothing was subscribed: the relation between calls holds again with the cleared state *)
     exists L0. pose proof (end_call_rel _ _ _ HR0) as HB0.
-    destruct HR0 as [R1 R2 R3 R4 R5 R6]. destruct HB as [B1 B2 B3 B4 B5 B6].
+    destruct HR0 as [R1 R2 R3 R4 R5 R6 R7]. destruct HB as [B1 B2 B3 B4 B5 B6 B7].
     constructor; try (destruct HB0; assumption).
-    rewrite B2.
-    (* the cleared state has no temporary subscription left: the live list is unchanged *)
     assert (Hnt : forall x, In x (map g_sub L0) -> negb (s_temp x) = true).
     { intros x Hx. apply in_map_iff in Hx as [g [<- Hg]]. rewrite (R5 g Hg). reflexivity. }
     rewrite <- R2 in Hnt. rewrite B2 in Hnt.
@@ -745,57 +856,55 @@ Proof.
   - (* Subscribe *)
     destruct (subname_dec_bad n) as [->|Hn].
     + rewrite d_subscribe_bad, sp_subscribe_bad. cbn. split; [reflexivity|]. exists L. destruct s; exact HB.
-    + destruct HB as [B1 B2 B3 B4 B5 B6].
+    + destruct HB as [B1 B2 B3 B4 B5 B6 B7].
       assert (Hs1 : shared (reg (fst (d_subscribe (dsp s) f n))) = false).
       { destruct (d_subscribe (dsp s) f n) as [d [t|]]; exact Hsh. }
       destruct (d_subscribe_inv (dsp s) L f n false B1 Hn Hs1) as [HI [Ht Hig]].
       assert (Etok : tok_ctr (fst (d_subscribe (dsp s) f n)) = S (tok_ctr (dsp s))).
       { rewrite (d_subscribe_eq _ f n Hn). reflexivity. }
       destruct (d_subscribe (dsp s) f n) as [d' o] eqn:E. cbn [fst snd] in *. subst o.
-      assert (Esp : sp_subscribe sp f n false =
-                ({| live := live sp ++ [{| s_tok := next_tok sp; s_fn := f; s_name := n; s_temp := false |}];
-                    next_tok := S (next_tok sp); sp_ign := sp_ign sp |}, Some (next_tok sp)))
-        by (destruct n; try congruence; reflexivity).
-      rewrite Esp. cbn [fst snd]. split; [now rewrite B3|].
+      rewrite (sp_subscribe_eq sp f n false Hn). cbn [fst snd]. split; [now rewrite B3|].
       exists (L ++ [new_gsub (dsp s) f n false]).
-      constructor; cbn [dsp temp live next_tok sp_ign].
+      constructor; cbn [dsp temp live next_tok sp_ign sp_temps].
       * exact HI.
       * rewrite B2, map_app, filter_app, B3. reflexivity.
       * congruence.
       * congruence.
       * intros g Hg. apply in_app_or in Hg as [Hg|[<-|[]]]; [now apply B5|].
         cbn. symmetry. destruct (memb (tok_ctr (dsp s)) (temp s)) eqn:Em; [|reflexivity].
-        apply memb_In, B6 in Em. unfold g_tok, new_gsub in Em; cbn in Em. lia.
-      * intros t Ht. apply B6 in Ht. lia.
+        apply memb_In, B7 in Em. unfold g_tok, new_gsub in Em; cbn in Em. lia.
+      * exact B6.
+      * intros t Ht. apply B7 in Ht. lia.
   - (* Unsubscribe *)
-    destruct HB as [B1 B2 B3 B4 B5 B6].
+    destruct HB as [B1 B2 B3 B4 B5 B6 B7].
     destruct (d_unsubscribe_inv (dsp s) L t B1) as [HI [Hig Htc]].
     cbn [fst snd]. split; [reflexivity|]. exists (filter (keep_tok t) L).
-    constructor; cbn [dsp temp live next_tok sp_ign sp_unsubscribe].
+    constructor; cbn [dsp temp live next_tok sp_ign sp_temps sp_unsubscribe].
     + exact HI.
     + rewrite B2, filter_filter_comm. f_equal. rewrite filter_map_comm. reflexivity.
     + congruence.
     + congruence.
     + intros g Hg. apply filter_In in Hg as [Hg _]. now apply B5.
-    + intros t' Ht'. rewrite Htc. now apply B6.
+    + exact B6.
+    + intros t' Ht'. rewrite Htc. now apply B7.
   - (* SetIgnore *)
-    destruct HB as [B1 B2 B3 B4 B5 B6]. cbn [fst snd]. split; [reflexivity|]. exists L.
-    constructor; cbn [dsp temp live next_tok sp_ign]; auto. now apply set_ignore_inv.
+    destruct HB as [B1 B2 B3 B4 B5 B6 B7]. cbn [fst snd]. split; [reflexivity|]. exists L.
+    constructor; cbn [dsp temp live next_tok sp_ign sp_temps]; auto. now apply set_ignore_inv.
   - (* RunCall *)
     now apply (run_call_sim s L sp subs plan).
   - (* UnsubscribeAll *)
-    destruct HB as [B1 B2 B3 B4 B5 B6].
+    destruct HB as [B1 B2 B3 B4 B5 B6 B7].
     destruct (unsubscribe_all_inv (dsp s) L B1) as [HI [Hig Htc]].
     cbn [fst snd]. split; [reflexivity|]. exists [].
-    constructor; cbn [dsp temp live next_tok sp_ign]; auto; try congruence.
+    constructor; cbn [dsp temp live next_tok sp_ign sp_temps]; auto; try congruence.
     + intros g [].
-    + intros t Ht. rewrite Htc. now apply B6.
+    + intros t Ht. rewrite Htc. now apply B7.
   - (* Reset *)
-    destruct HB as [B1 B2 B3 B4 B5 B6].
+    destruct HB as [B1 B2 B3 B4 B5 B6 B7].
     destruct (fold_unsubscribe_inv (temp s) (dsp s) L B1) as [HI0 [Hig0 Htc0]].
     destruct (unsubscribe_all_inv _ _ HI0) as [HI [Hig Htc]].
     cbn [fst snd]. split; [reflexivity|]. exists [].
-    constructor; unfold clear_call_cache; cbn [dsp temp live next_tok sp_ign]; auto; try congruence.
+    constructor; unfold clear_call_cache; cbn [dsp temp live next_tok sp_ign sp_temps]; auto; try congruence.
     + intros g [].
     + intros t [].
 Qed.
@@ -827,93 +936,137 @@ Proof. intros h H. unfold run_hist, spec_hist. eapply run_from_sim; [apply RelBt
 (* ------------------------------------------------------------------ the specification says what C18 says *)
 
 Definition unsub_free (t : nat) (plan : list pmsg) : Prop := forall u, In (PUnsub u) plan -> u <> t.
+(* the callable never unsubscribes token t from inside a callback *)
+Definition hands_off (t : nat) (f : callable) : Prop := forall d, ~ In (CbUnsub t) (acts f d).
+Definition plan_hands_off (t : nat) (plan : list pmsg) : Prop := forall f n, In (PSub f n) plan -> hands_off t f.
 
-Lemma sp_subscribe_live : forall s f n tmp,
-  (forall x, In x (live (fst (sp_subscribe s f n tmp))) -> In x (live s) \/ s_temp x = tmp) /\
-  (forall x, In x (live s) -> In x (live (fst (sp_subscribe s f n tmp)))).
+(* x (with token t) is live and no live callable would unsubscribe t *)
+Definition kept (t : nat) (x : sub) (s : spec_st) : Prop :=
+  In x (live s) /\ forall y, In y (live s) -> hands_off t (s_fn y).
+
+Lemma kept_subscribe : forall t x s f n tmp, kept t x s -> hands_off t f -> kept t x (fst (sp_subscribe s f n tmp)).
 Proof.
-  intros s f n tmp. destruct n; cbn; split; intros x Hx; auto.
-  - apply in_app_or in Hx as [Hx|[<-|[]]]; auto.
+  intros t x s f n tmp [H1 H2] Hf. destruct (subname_dec_bad n) as [->|Hn]; [split; assumption|].
+  rewrite (sp_subscribe_eq s f n tmp Hn). cbn [fst]. split; cbn [live].
   - apply in_or_app; now left.
-  - apply in_app_or in Hx as [Hx|[<-|[]]]; auto.
-  - apply in_or_app; now left.
+  - intros y Hy. apply in_app_or in Hy as [Hy|[<-|[]]]; [now apply H2 | exact Hf].
 Qed.
 
-Lemma sp_subscribe_temps_live : forall l s,
-  (forall x, In x (live (sp_subscribe_temps s l)) -> In x (live s) \/ s_temp x = true) /\
-  (forall x, In x (live s) -> In x (live (sp_subscribe_temps s l))).
+Lemma kept_unsubscribe : forall t x s u, kept t x s -> s_tok x = t -> u <> t -> kept t x (sp_unsubscribe s u).
 Proof.
-  induction l as [|[n f] l IH]; intros s; cbn [sp_subscribe_temps]; [split; auto|].
-  destruct (IH (fst (sp_subscribe s f n true))) as [H1 H2].
-  destruct (sp_subscribe_live s f n true) as [K1 K2]. split; intros x Hx.
-  - apply H1 in Hx as [Hx|Hx]; [apply K1 in Hx; tauto | now right].
-  - apply H2, K2, Hx.
+  intros t x s u [H1 H2] Hx Hu. split; cbn.
+  - apply filter_In; split; [exact H1|]. apply negb_true_iff, Nat.eqb_neq. congruence.
+  - intros y Hy. apply filter_In in Hy as [Hy _]. now apply H2.
 Qed.
 
-Lemma sp_run_plan_live : forall plan s c ems toks,
-  let s' := fst (fst (fst (fst (sp_run_plan s c plan ems toks)))) in
-  (forall x, In x (live s') -> In x (live s) \/ s_temp x = true) /\
-  (forall x, In x (live s) -> unsub_free (s_tok x) plan -> In x (live s')).
+Lemma plain_hands_off : forall t id eq rz, hands_off t (plain_fn id eq rz).
+Proof. intros t id eq rz d H. exact H. Qed.
+
+Lemma kept_fold_act : forall t x l s, s_tok x = t -> ~ In (CbUnsub t) l -> kept t x s -> kept t x (fold_left sp_apply_act l s).
 Proof.
-  induction plan as [|m plan IH]; intros s c ems toks; [cbn; split; auto|].
-  assert (Hdata : forall a,
-    let s' := fst (fst (fst (fst (match a with
+  intros t x; induction l as [|a l IH]; intros s Hx Hl K; [exact K|]. cbn [fold_left].
+  apply IH; [exact Hx | intros H; apply Hl; now right |].
+  destruct a as [u|id eq rz n]; cbn [sp_apply_act].
+  - apply kept_unsubscribe; auto. intros ->. apply Hl; now left.
+  - apply kept_subscribe; [exact K | apply plain_hands_off].
+Qed.
+
+Lemma kept_call_all : forall t x fs ig dc s, s_tok x = t -> (forall f, In f fs -> hands_off t f) -> kept t x s ->
+  kept t x (fst (fst (call_all sp_apply_act ig dc s fs))).
+Proof.
+  intros t x; induction fs as [|f fs IH]; intros ig dc s Hx Hfs K; [exact K|]. cbn [call_all].
+  assert (K1 : kept t x (fold_left sp_apply_act (acts f dc) s))
+    by (apply kept_fold_act; [exact Hx | apply Hfs; now left | exact K]).
+  pose proof (IH ig dc _ Hx (fun g Hg => Hfs g (or_intror Hg)) K1) as K2.
+  destruct (call_all sp_apply_act ig dc (fold_left sp_apply_act (acts f dc) s) fs) as [[s2 l] y]. cbn [fst] in K2.
+  destruct (raises_on f dc); [destruct ig|]; cbn [fst]; assumption.
+Qed.
+
+Lemma kept_process : forall t x dc s, s_tok x = t -> kept t x s -> kept t x (fst (fst (sp_process s dc))).
+Proof.
+  intros t x dc s Hx K. unfold sp_process. apply kept_call_all; [exact Hx | | exact K].
+  intros f Hf. apply in_map_iff in Hf as [y [<- Hy]]. apply filter_In in Hy as [Hy _]. now apply (proj2 K).
+Qed.
+
+Lemma kept_emit_all : forall t x ds s, s_tok x = t -> kept t x s -> kept t x (fst (fst (emit_all sp_process s ds))).
+Proof.
+  intros t x; induction ds as [|dc ds IH]; intros s Hx K; [exact K|]. cbn [emit_all].
+  pose proof (kept_process t x dc s Hx K) as K1. destruct (sp_process s dc) as [[s1 inv] y]. cbn [fst] in K1.
+  destruct y as [e|]; [exact K1|].
+  pose proof (IH s1 Hx K1) as K2. destruct (emit_all sp_process s1 ds) as [[s2 ems] z]. exact K2.
+Qed.
+
+Lemma kept_subscribe_temps : forall t x l s, (forall n f, In (n, f) l -> hands_off t f) -> kept t x s ->
+  kept t x (sp_subscribe_temps s l).
+Proof.
+  intros t x; induction l as [|[n f] l IH]; intros s Hl K; [exact K|]. cbn [sp_subscribe_temps].
+  apply IH; [intros n' f' H; apply (Hl n' f'); now right|].
+  apply kept_subscribe; [exact K | apply (Hl n f); now left].
+Qed.
+
+Lemma kept_run_plan : forall t x plan s c ems toks, s_tok x = t ->
+  unsub_free t plan -> plan_hands_off t plan -> kept t x s ->
+  kept t x (fst (fst (fst (fst (sp_run_plan s c plan ems toks))))).
+Proof.
+  intros t x; induction plan as [|m plan IH]; intros s c ems toks Hx Hu Hp K; [exact K|].
+  assert (Hu' : unsub_free t plan) by (intros u H; apply Hu; now right).
+  assert (Hp' : plan_hands_off t plan) by (intros f n H; apply (Hp f n); now right).
+  assert (Hdata : forall a, kept t x (fst (fst (fst (fst (match a with
         | ASkip => sp_run_plan s c plan ems toks
         | AIllegal => (s, c, ems, toks, Some ExIllegal)
         | AEmit during ds after =>
-            match emit_all (sp_process s) ds with
-            | (es, None) => sp_run_plan s after plan (ems ++ es) toks
-            | (es, Some e) => (s, during, ems ++ es, toks, Some e)
+            match emit_all sp_process s ds with
+            | (s1, es, None) => sp_run_plan s1 after plan (ems ++ es) toks
+            | (s1, es, Some e) => (s1, during, ems ++ es, toks, Some e)
             end
-        end)))) in
-    (forall x, In x (live s') -> In x (live s) \/ s_temp x = true) /\
-    (forall x, In x (live s) -> unsub_free (s_tok x) (m :: plan) -> In x (live s'))).
-  { intros a. assert (Hfree : forall t, unsub_free t (m :: plan) -> unsub_free t plan)
-      by (intros t H u Hu; apply H; now right).
-    destruct a as [during ds after| |].
-    - destruct (emit_all (sp_process s) ds) as [es [e|]]; cbn.
-      + split; auto.
-      + destruct (IH s after (ems ++ es) toks) as [H1 H2]. split; [exact H1 | intros x Hx Hf; apply H2; auto].
-    - cbn; split; auto.
-    - destruct (IH s c ems toks) as [H1 H2]. split; [exact H1 | intros x Hx Hf; apply H2; auto]. }
+        end)))))).
+  { intros [during ds after| |]; [|exact K|now apply IH].
+    pose proof (kept_emit_all t x ds s Hx K) as K1.
+    destruct (emit_all sp_process s ds) as [[s1 es] [e|]]; cbn [fst] in K1; [exact K1 | now apply IH]. }
   destruct m; cbn [sp_run_plan]; try apply Hdata.
-  - (* PSub *)
-    destruct (sp_subscribe_live s f n true) as [K1 K2].
-    destruct (sp_subscribe s f n true) as [s1 [t|]] eqn:E; cbn [fst] in *.
-    + destruct (IH s1 c ems (toks ++ [t])) as [H1 H2]. split; intros x Hx.
-      * apply H1 in Hx as [Hx|Hx]; [apply K1 in Hx; tauto | now right].
-      * intros Hf. apply H2; [now apply K2 | intros u Hu; apply Hf; now right].
-    + cbn. split; [exact K1 | intros x Hx _; now apply K2].
-  - (* PUnsub *)
-    assert (K1 : forall x, In x (live (sp_unsubscribe s t)) -> In x (live s))
-      by (intros x Hx; cbn in Hx; apply filter_In in Hx; tauto).
-    assert (K2 : forall x, In x (live s) -> s_tok x <> t -> In x (live (sp_unsubscribe s t))).
-    { intros x Hx Hn. cbn. apply filter_In; split; [exact Hx|]. now apply negb_true_iff, Nat.eqb_neq. }
-    destruct (existsb _ (live s)).
-    + destruct (IH (sp_unsubscribe s t) c ems toks) as [H1 H2]. split; intros x Hx.
-      * apply H1 in Hx as [Hx|Hx]; [left; now apply K1 | now right].
-      * intros Hf. apply H2; [apply K2; [exact Hx | intros E; apply (Hf t); [now left | now symmetry]]
-                             | intros u Hu; apply Hf; now right].
-    + cbn. split; [intros x Hx; left; now apply K1|].
-      intros x Hx Hf. apply K2; [exact Hx | intros E; apply (Hf t); [now left | now symmetry]].
+  - pose proof (kept_subscribe t x s f n true K (Hp f n (or_introl eq_refl))) as K1.
+    destruct (sp_subscribe s f n true) as [s1 [u|]]; cbn [fst] in K1; [now apply IH | exact K1].
+  - assert (Hn : t0 <> t) by (apply Hu; now left).
+    pose proof (kept_unsubscribe t x s t0 K Hx Hn) as K1.
+    destruct (existsb (Nat.eqb t0) (sp_temps s)); [|exact K1].
+    apply IH; auto.
 Qed.
 
-(* temporary subscriptions never outlive their call; nothing made inside the call does;
-   a permanent subscription survives the call unless the plan unsubscribes its own token *)
+Lemma normalize_subs_in : forall subs l n f, normalize_subs subs = Some l -> In (n, f) l ->
+  exists m fs, In (m, fs) subs /\ In f fs.
+Proof.
+  intros subs l n f En Hin. unfold normalize_subs in En. destruct (forallb _ subs); [|discriminate].
+  remember subs_names as sn. injection En as El. rewrite <- El in Hin. clear El.
+  apply in_flat_map in Hin as [n' [_ Hin]]. apply in_flat_map in Hin as [[m fs] [Hm Hin]].
+  cbn [fst snd] in Hin. destruct (subname_eqb m n'); [|destruct Hin].
+  apply in_map_iff in Hin as [f' [E Hf']]. inversion E; subst. exists m, fs; auto.
+Qed.
+
+(* after any call made between calls no temporary subscription is live any more; and a permanent subscription
+   is still live provided neither the plan nor any callback (of a live subscription, of the per-call
+   subscriptions or of the in-plan ones) unsubscribes its own token *)
 Theorem spec_call_keeps_and_drops : forall s subs plan,
   (forall x, In x (live s) -> s_temp x = false) ->          (* between calls *)
   let s' := fst (sp_run_call s subs plan) in
-  (forall x, In x (live s') -> s_temp x = false /\ In x (live s)) /\
-  (forall x, In x (live s) -> unsub_free (s_tok x) plan -> In x (live s')).
+  (forall x, In x (live s') -> s_temp x = false) /\
+  (forall x, In x (live s) -> unsub_free (s_tok x) plan -> plan_hands_off (s_tok x) plan ->
+     (forall y, In y (live s) -> hands_off (s_tok x) (s_fn y)) ->
+     (forall n fs f, In (n, fs) subs -> In f fs -> hands_off (s_tok x) f) ->
+     In x (live s')).
 Proof.
-  intros s subs plan Hbt. unfold sp_run_call. destruct (normalize_subs subs) as [l|].
-  - destruct (sp_subscribe_temps_live l s) as [A1 A2].
-    pose proof (sp_run_plan_live plan (sp_subscribe_temps s l) cstate0 [] []) as [B1 B2].
-    destruct (sp_run_plan (sp_subscribe_temps s l) cstate0 plan [] []) as [[[[s3 c] ems] toks] x]. cbn [fst] in *.
-    destruct (emit_all (sp_process s3) _) as [es y]. cbn [fst sp_end_call live].
-    split; intros x0 Hx.
-    + apply filter_In in Hx as [Hx Ht]. apply negb_true_iff in Ht. split; [exact Ht|].
-      apply B1 in Hx as [Hx|Hx]; [|congruence]. apply A1 in Hx as [Hx|Hx]; [exact Hx | congruence].
-    + intros Hf. apply filter_In. split; [apply B2; [now apply A2 | exact Hf] | now rewrite (Hbt x0 Hx)].
+  intros s subs plan Hbt. unfold sp_run_call. destruct (normalize_subs subs) as [l|] eqn:En.
+  - destruct (sp_run_plan (sp_subscribe_temps s l) cstate0 plan [] []) as [[[[s3 c] ems] toks] x] eqn:Erun.
+    destruct (emit_all sp_process s3 _) as [[s4 es] y] eqn:Ee. cbn [fst sp_end_call live].
+    split.
+    + intros x0 Hx. apply filter_In in Hx as [_ Ht]. now apply negb_true_iff in Ht.
+    + intros x0 Hx Hu Hp Hl Hs.
+      assert (Hl' : forall n f, In (n, f) l -> hands_off (s_tok x0) f).
+      { intros n f Hin. destruct (normalize_subs_in subs l n f En Hin) as [m [fs [H1 H2]]]. eapply Hs; eauto. }
+      pose proof (kept_subscribe_temps (s_tok x0) x0 l s Hl' (conj Hx Hl)) as K1.
+      pose proof (kept_run_plan (s_tok x0) x0 plan _ cstate0 [] [] eq_refl Hu Hp K1) as K2.
+      rewrite Erun in K2. cbn [fst] in K2.
+      pose proof (kept_emit_all (s_tok x0) x0 (cleanup_docs c match x with Some _ => true | None => false end)
+                    s3 eq_refl K2) as K3. rewrite Ee in K3. cbn [fst] in K3.
+      apply filter_In. split; [exact (proj1 K3) | now rewrite (Hbt x0 Hx)].
   - cbn. split; auto.
 Qed.
